@@ -105,12 +105,12 @@ def build():
     mh.requires('the_rounded_height_fits', 'min_trace_height <= 0x4000_0000_0000_0000')
     mh.ensures('the_packing_handed_out_is_one_validate_accepts', 'ret.wf()')
     l = u.extract(P, r'impl TablePacking', 'with_public_alu_lanes', 'TablePacking::with_public_alu_lanes')
-    l.sig_rewrite('R2', 'mut self', 'self')
+    l.rewrite_re('R2', r'\bmut self\b', 'self', where='sig', min_count=0)
     l.sig_rewrite('R12', '-> Self', '-> TablePacking')
-    l.rewrite_re('R2', r'\bself\b', 'self_', min_count=3)
+    l.rewrite_re('R2', r'\bself\b', 'self_', min_count=1)
     l.at_start('let mut self_ = self;')
-    l.rewrite('R11', 'public_lanes.max(1)', 'usize_max(public_lanes, 1)')
-    l.rewrite('R11', 'alu_lanes.max(1)', 'usize_max(alu_lanes, 1)')
+    l.rewrite_re('R11', r'\b(public_lanes|alu_lanes)\.max\(1\)', r'usize_max(\1, 1)', min_count=0)
+    l.rewrite_re('R12', r'\bSelf\b(?=\s*(\{|::))', 'TablePacking', min_count=0)
     l.requires('wf', 'self.wf()')
     l.ensures('well_formed', 'ret.wf()')
     l.ensures('only_the_two_primitive_lane_counts_change', 'ret.horner_packed_steps == self.horner_packed_steps && ret.npo_lanes@ == self.npo_lanes@ && ret.min_trace_height == self.min_trace_height')
